@@ -34,8 +34,62 @@ def showSt (st : St) : String :=
   "".intercalate (st.segs.map fun s =>
     "[" ++ ",".intercalate (s.frags.map fun f => match f.moof with | some p => toString p | none => "nomoof") ++ "]")
 
+/-- size of a top-level sidx as the library writes it back (8-byte header, no trailing bytes) -/
+def sidxWrittenSize (file : Bytes) (it : Item) : Option Nat := do
+  let bs := (file.drop it.pos).take it.size
+  let (_, hl, _) ← parseHeader bs
+  let sp ← specOf "sidx"
+  let (tr, _) ← decode (fuelFor sp.layout bs.length) sp.layout [] (bs.drop hl)
+  some ((if tr.nat "version" = 0 then 32 else 40) + 12 * tr.nat "reference_count")
+
+def kindOfLetter (s : String) : Kind :=
+  if s = "e" then .emsg else if s = "m" then .moof else if s = "d" then .mdat else .other
+
+/-- `kind:segment:fragment:recipe/sizes` — the model reads the sizes (last `/` part), the harness builds the boxes from
+    the recipe and confirms the sizes -/
+def parseOp (o : String) : Option ApiOp := do
+  match o.splitOn ":" with
+  | [k, s, f, arg] =>
+    let si ← s.toNat?
+    let fi ← f.toNat?
+    let parts := arg.splitOn "/"
+    let sizes ← parts.getLast?
+    let head := parts.headD ""
+    if k = "ae" then some (.addEmsg si fi (← (sizes.splitOn "+").mapM String.toNat?))
+    else if k = "ac" then some (.addChild si fi (kindOfLetter ((head.splitOn ".").headD "")) (← sizes.toNat?))
+    else if k = "af" then
+      let boxes ← (sizes.splitOn "+").mapM fun b =>
+        match b.splitOn "." with
+        | [kk, z] => z.toNat?.map fun n => (kindOfLetter kk, n)
+        | _ => none
+      some (.addFragment si boxes)
+    else if k = "as" then
+      let z ← sizes.toNat?
+      some (.addSegment (if head = "1" then some z else none))
+    else if k = "st" then some (.setStyp si (← sizes.toNat?))
+    else none
+  | _ => none
+
+def showUpd : UpdOut → String
+  | .error => "err"
+  | .nothing => "none"
+  | .index o => s!"sizes={showNats o.sizes} first={o.firstOffset} at=" ++
+      (match o.insertAt with | some i => toString i | none => "-")
+
 def dispatch (op : String) (args : List String) : Option String :=
   match op, args with
+  | "usidx", [som, ism, add, ops, h] => do
+      let file ← fromHex h
+      let items := topLevel (file.length + 1) file 0
+      let st0 : St := { startOnMoof := som = "1", tfra := if ism = "1" then tfraOffsets file items else none }
+      let apiOps ← if ops = "-" then some [] else (ops.splitOn ",").mapM parseOp
+      pure (match groupItems st0 (sidxOfBytes file) items with
+        | none => "panic"
+        | some st =>
+          let fileSidx := (items.takeWhile fun it => it.kind != .styp && it.kind != .emsg && it.kind != .moof).filter
+            (·.kind == .sidx)
+          let others := (fileSidx.drop 1).filterMap (sidxWrittenSize file)
+          showUpd (updateSidx items (applyOps file.length st apiOps) (add = "1") others))
   | "group", [som, ism, h] => do
       let file ← fromHex h
       let items := topLevel (file.length + 1) file 0
